@@ -21,7 +21,8 @@ RULE = (
     "root has exactly one roCreate child and at most one mosromgrmeta child; message_id equals the "
     "roCreate's original one and ro_id the original one (messages are addressed to this running "
     "order); the <mos> attributes and header elements are the roCreate document's own; bytes round trip (utf-8) gives the same.  Non-trivial = the state is the result of >= 1 "
-    "effective merge and holds non-ASCII or markup-significant text.")
+    "effective merge and holds non-ASCII or markup-significant text."
+    ' Round 11: a quarter of the history shards also offer messages addressed to other running orders (refused or not; the original-roID invariant is judged only while every message was addressed to the running order); history steps re-using an earlier messageID.')
 ASSUMPTIONS = ['text is XML-1.0-legal without CR (a literal CR is normalised by every XML parser)']
 MANDATORY = ['after:RunningOrderReplace', 'after:MetaDataReplace', 'after:StorySend',
              'after:RunningOrderEnd', 'special-chars', 'depth>=5']
